@@ -326,4 +326,68 @@ theorem mul_pow2_fft64_ntt120_headroom_needed :
     (Ref.mulPow2Val (-1#64) 0x7FFFFFFFFFFFFFFF#64).signExtend 128
       ≠ Ref128.mulPow2Assign (-1#64) ((0x7FFFFFFFFFFFFFFF#64).signExtend 128) := by decide
 
+/-! ### NTT120 family: `i128 → i64` normalisation kernels (`nfc_*`, `impl I128NormalizeOps for NTT120Avx`) -/
+
+/-- radices of the `i128` normalisation: the AVX2 path is taken for `base2k ≤ 64`; `lsh < base2k` is
+asserted by the scalar kernels -/
+abbrev Radix128 (b lsh : W) : Prop := 1#64 ≤ b ∧ b ≤ 64#64 ∧ lsh < b
+
+/-- `nfc_middle_chunk` on the two 64-bit halves of an `i128` element and carry = the scalar middle step
+(digit, carry, shifted digit + carry, output digit, second carry, carry sum — all in `i128`) -/
+theorem nfc_middle_chunk_eq (b lsh : W) (v c : W128) (h : Radix128 b lsh) :
+    Vec128.middleCore b lsh v c = Ref128.middleCore b lsh v c := middleChunk_eq b lsh v c h.1 h.2.1 h.2.2
+example : Radix128 64#64 63#64 ∧ Vec128.middleCore 12#64 3#64 100000#128 5#128 = (1285#64, 195#128)
+    ∧ Vec128.middleCore 64#64 0#64 (1#128 <<< 100) (-1#128) = (-1#64, 68719476736#128) := by decide
+
+/-- `nfc_final_chunk` (low halves only) = the scalar final step -/
+theorem nfc_final_chunk_eq (b lsh r : W) (c : W128) (h : Radix128 b lsh) :
+    Vec128.finalChunk (Vec128.mkShifts b lsh) r (lo c) = Ref128.finalCore b lsh r c := finalChunk_eq b lsh r c h.1 h.2.1 h.2.2
+example : Vec128.finalChunk (Vec128.mkShifts 12#64 3#64) 100000#64 (lo 2047#128) = -769#64 := by decide
+
+/-- all seven `nfc_*` kernels: the AVX lane function is the scalar element function -/
+theorem nfc_lanes_eq (op : String) (b lsh : W) (h : Radix128 b lsh) : vecLane128 op b lsh = refLane128 op b lsh := by
+  unfold vecLane128 refLane128
+  split <;> simp only [Option.some.injEq] <;> try rfl
+  all_goals funext x a c
+  all_goals try simp only [nfc_middle_chunk_eq b lsh _ _ h, nfc_final_chunk_eq b lsh _ _ h, add_epi64, sub_epi64]
+  -- nfc_middle_assign: the operand is the sign-extended `i64` limb
+  have := nfc_middle_chunk_eq b lsh (sext x) c h
+  simp only [Vec128.middleCore, lo_sext, hi_sext] at this
+  exact this
+example : (vecLane128 "nfc_middle_sub" 12#64 3#64).map (fun f => f 7#64 100000#128 5#128) = some (-1278#64, 195#128) := by decide
+
+/-- slice level, with the dispatch of `impl I128NormalizeOps for NTT120Avx` (`base2k <= 64 && len >= 4`) -/
+theorem nfc_slices_agree (op : String) (b lsh : W) (h : Radix128 b lsh) (l : List (W × W128 × W128)) :
+    slice128Avx op b lsh l = slice128Ref op b lsh l := by
+  unfold slice128Avx slice128Ref
+  rw [nfc_lanes_eq op b lsh h]
+  cases refLane128 op b lsh with
+  | none => rfl
+  | some f =>
+    simp only
+    split
+    · simp only [run128, ← List.map_append, List.take_append_drop]
+    · rfl
+example : isOkWith (slice128Avx "nfc_middle" 12#64 3#64 [(0, 100000, 5), (0, -5, 0), (0, 1, 1), (0, 2, 2), (0, 3, 3)])
+    [(1285, 195), (-40, 0), (9, 0), (18, 0), (27, 0)] = true := by decide
+
+/-! ### index kernels (`automorphism.rs`, `switch_ring.rs`)
+
+/- FULL STATEMENT (not proved): for every power of two `n ≥ 4`, every odd `p : i64` and all `res a : List W` of
+   length `n`, `automorphismAvx p res a = automorphismRef p res a` (the gather through `inv_mod_pow2(p mod 2n)`
+   equals the scatter with running index `k += p mod 2n`; needs `inv · p ≡ 1 (mod 2n)` from the Hensel iteration and
+   the bijectivity of `i ↦ i·p mod 2n`), and for all admissible degree pairs
+   `switchRingAvx res a = switchRingRef res a`.  Both index kernels are executable in the model and tied to the
+   four back ends for every degree pair in {1,…,64}² and every odd exponent class (exhaustively for n ≤ 16);
+   what is proved is the lane part: -/ -/
+
+/-- lane part of `znx_automorphism_avx`: `(v ^ mask) - mask` with `mask = cmpgt(t, n−1)` negates exactly the
+lanes whose exponent `t` lies in `[n, 2n)` -/
+theorem automorphism_cond_negate_partial (v t m : W) :
+    sub_epi64 (xor_si256 v (cmpgt_epi64 t m)) (cmpgt_epi64 t m) = if BitVec.slt m t then -v else v := condNegate_eq v t m
+example : isOkWith (automorphismAvx (-5) [0, 0, 0, 0, 0, 0, 0, 0] [1, 2, 3, 4, 5, 6, 7, 8]) [1, 4, 7, -2, -5, -8, 3, 6] = true
+    ∧ isOkWith (automorphismRef (-5) [0, 0, 0, 0, 0, 0, 0, 0] [1, 2, 3, 4, 5, 6, 7, 8]) [1, 4, 7, -2, -5, -8, 3, 6] = true
+    ∧ isOkWith (switchRingAvx [9, 9, 9, 9] [1, 2, 3, 4, 5, 6, 7, 8]) [1, 3, 5, 7] = true
+    ∧ isOkWith (switchRingAvx [9, 9, 9, 9, 9, 9, 9, 9] [1, 2, 3, 4]) [1, 0, 2, 0, 3, 0, 4, 0] = true := by decide
+
 end C10
